@@ -190,6 +190,7 @@ def correspondence(ctx):
         paths.append(p)
         metas.append((p, name, seed, ops))
     probe_mixed_blocks(ctx, nsgenv, WL, WR)
+    probe_block_boundaries(ctx, nsgenv, WL, WR)
     from props import dynprobe
     dynprobe.run(ctx, "C13")
     res = CK.run_case_files(ctx, paths, timeout=1500)
@@ -224,6 +225,78 @@ def correspondence(ctx):
     ]
 
 
+def probe_block_boundaries(ctx, nsgenv, WL, WR):
+    """The random draws of the re-labelling are an oracle: here they are scripted so that the new base of the private networks
+    lies at the very top of each RFC 1918 block (the draw the generator's retry exists to reject: the higher networks would fall
+    out of private space), then just below it, then in the middle.  Whatever is drawn, the re-labelling that is finally
+    accepted keeps every private network private, keeps the distances, keeps the map one-to-one and every address in its
+    network; and it must come from a draw that allows that."""
+    import netaddr
+    stats = {"scripted_resets": 0}
+    scripts = [["192.168.255.7", "172.31.255.9", "10.255.255.3", "192.168.77.5"],
+               ["10.255.255.200", "10.200.1.1"], ["172.31.255.1", "172.20.3.3"], ["192.168.255.254", "192.168.100.100"]]
+    for scenario in ("scenario1_small", "three_nets"):
+        cfg = nsgenv.base_config(scenario, use_dynamic_addresses=True)
+        try:
+            drv = WR.start_world(cfg)
+        except Exception as e:
+            ctx.stage_errors.append((f"block boundary probe {scenario}", f"{type(e).__name__}: {e}"))
+            continue
+        g = drv.g
+        try:
+            real = g._faker_object
+
+            class Scripted:
+                def __init__(self):
+                    self.queue = []
+
+                def ipv4_private(self, *a, **k):
+                    return self.queue.pop(0) if self.queue else real.ipv4_private(*a, **k)
+
+                def __getattr__(self, name):
+                    return getattr(real, name)
+            sc = Scripted()
+            g._faker_object = sc
+            orig_nets = sorted(g._networks, key=lambda n: (str(n.ip), n.mask))
+            priv0 = [n for n in orig_nets if netaddr.IPNetwork(str(n)).ip.is_ipv4_private_use()]
+            for script in scripts:
+                sc.queue = list(script)
+                replay = {"kind": "block_boundaries", "scenario": scenario, "script": script}
+                try:
+                    WL.run_coro(g.reset())
+                except BaseException as e:
+                    ctx.violations.append({"key": "re-labelling fails on a boundary draw", "what": f"{scenario}: with the private draws {script} the reset ends with {type(e).__name__}({e})", "replay": replay})
+                    break
+                stats["scripted_resets"] += 1
+                nm = g._network_mapping
+                cur = {o: nm[o] for o in priv0}
+                bad = [f"{o} -> {c}" for o, c in cur.items() if not netaddr.IPNetwork(str(c)).ip.is_ipv4_private_use()]
+                if bad:
+                    ctx.violations.append({"key": "a private network is re-labelled to a public one",
+                                           "what": f"{scenario}: with the private draws {script} (new base at the top of a private block first) the accepted re-labelling maps {bad}: private networks must stay private",
+                                           "replay": replay})
+                base = priv0[0]
+                for o in priv0[1:]:
+                    d0 = int(netaddr.IPNetwork(str(o)).ip) - int(netaddr.IPNetwork(str(base)).ip)
+                    d1 = int(netaddr.IPNetwork(str(cur[o])).ip) - int(netaddr.IPNetwork(str(cur[base])).ip)
+                    if d0 != d1:
+                        ctx.violations.append({"key": "private networks do not keep their distance", "what": f"{scenario}: draws {script}: distance {base} - {o} was {d0}, is {d1} after the re-labelling", "replay": replay})
+                ips = list(g._ip_mapping.values())
+                if len(set(ips)) != len(ips):
+                    ctx.violations.append({"key": "address map not one-to-one", "what": f"{scenario}: draws {script}: two hosts share an address", "replay": replay})
+                for net, members in g._networks.items():
+                    for i in members:
+                        if str(i) not in netaddr.IPNetwork(str(net)):
+                            ctx.violations.append({"key": "address outside its network", "what": f"{scenario}: draws {script}: {i} is not inside {net}", "replay": replay})
+                            break
+        except Exception as e:
+            import traceback
+            ctx.stage_errors.append((f"block boundary probe {scenario}", f"{type(e).__name__}: {e}\n{traceback.format_exc()[-500:]}"))
+        finally:
+            drv.close()
+    ctx.coverage["block_boundary_probe"] = stats
+
+
 def probe_mixed_blocks(ctx, nsgenv, WL, WR):
     """A topology whose private networks lie in two different RFC 1918 blocks."""
     import cyst.api.configuration as C
@@ -249,6 +322,15 @@ def replay(ctx, payload):
         from props import dynprobe
         c2 = CK.Ctx("C13", "quick", 1)
         dynprobe.run(c2, "C13")
+        for v in c2.violations:
+            print(v["what"])
+        if c2.violations:
+            print("VIOLATION property=C13 replay=(this file)")
+        return 1 if c2.violations else 0
+    if payload.get("kind") == "block_boundaries":
+        nsgenv, WL, WR = WC._imports()
+        c2 = CK.Ctx("C13", "quick", 1)
+        probe_block_boundaries(c2, nsgenv, WL, WR)
         for v in c2.violations:
             print(v["what"])
         if c2.violations:
